@@ -9,11 +9,11 @@ from vlib.coqterm import C, show
 ASSUMPTIONS = [
     "bcrypt verification and the token digest are modelled as equality tests on abstract values",
     "'never written to the data files' is decided by a byte search of the real files after every history (a test, not a theorem)",
-    "JWT / HTTP login is not exercised (password changes do go through the HTTP API as well)",
+    "logins, logouts and token commands also go through the HTTP API (client http1); the JWT itself (signature, expiry, refresh) is not examined",
 ]
 USERS = ["alice", "bob", "carol", "dora"]
 PWS = ["pw-alpha-1", "pw-beta-22", "pw-gamma-333", "pw-delta-4444"]
-CLIENTS = ["c1", "c2", "c3"]
+CLIENTS = ["c1", "c2", "c3", "http1"]     # http1 talks to the HTTP API (its login handlers issue and revoke tokens of their own)
 T0 = 1_700_000_000_000_000
 WHOAMI = {"g": 2}   # read_servers: get_me is refused as 'unauthorized' (a permission matter, C09) for a user without it
 
@@ -83,6 +83,7 @@ def gen(rng, tid):
             pname = "tok%d" % rng.randrange(3)
             add({"op": "delete_pat", "c": c, "name": pname}, C("XDeletePat", CLIENTS.index(c) + 1, 200 + int(pname[3:])))
         elif k == "whoami":
+            c = rng.choice(CLIENTS[:3])          # the HTTP API has no such request
             add({"op": "get_me", "c": c}, C("XWhoAmI", CLIENTS.index(c) + 1))
         elif k == "restart":
             add({"op": "restart"}, C("XRestart", clock[0] + 1000))
